@@ -14,6 +14,7 @@ mod stages;
 mod store;
 mod tirgen;
 mod tirjson;
+mod wirep;
 
 fn usage() -> ! {
     eprintln!("usage: harness <property> [--seed N] [--n N] [--tier quick|thorough] [--replay FILE]");
@@ -87,6 +88,11 @@ fn main() {
             stages::run_c14(&opts, &mut em);
             resolvep::run_c14(&opts, &mut em);
         }
+        "C11" => wirep::run_c11(&opts, &mut Emitter::new(&mut out, opts.only)),
+        "C11-garbage" => wirep::run_garbage_child(&opts),
+        "C17" => wirep::run_c17(&opts, &mut Emitter::new(&mut out, opts.only)),
+        "C18" => wirep::run_c18(&opts, &mut Emitter::new(&mut out, opts.only)),
+        "C18-child" => wirep::run_c18_child(&opts),
         "C05" => resolvep::run_c05(&opts, &mut Emitter::new(&mut out, opts.only)),
         "C20" => resolvep::run_c20(&opts, &mut Emitter::new(&mut out, opts.only)),
         "C06" => stages::run_c06(&opts, &mut Emitter::new(&mut out, opts.only)),
